@@ -332,6 +332,13 @@ func (x *castX) guard(e ast.Expr) (string, bool) {
 						return fmt.Sprintf("(.cmp %s %s %s)", op, l, lint(c)), true
 					}
 				}
+				// constant on the left: c op e  ==  e op' c
+				if c, ok := x.constInt(n.X); ok {
+					if l, ok := x.expr(n.Y); ok {
+						flip := map[string]string{".lt": ".gt", ".le": ".ge", ".gt": ".lt", ".ge": ".le", ".eq": ".eq", ".ne": ".ne"}
+						return fmt.Sprintf("(.cmp %s %s %s)", flip[op], l, lint(c)), true
+					}
+				}
 			}
 		}
 	}
@@ -377,6 +384,146 @@ func (x *castX) okStmt(s ast.Stmt) (string, bool) {
 	return x.expr(r.Results[0])
 }
 
+// guardedShape recognises the control-flow shapes that all mean "fail with the sentinel when the guard
+// holds, else return e":
+//
+//	if G { fail } ; return e, nil              if G { fail } else { return e, nil }
+//	if G' { return e, nil } ; fail             if G' { return e, nil } else { fail }        (G = !G')
+//	if G1 { fail } ; if G2 { fail } ; … ; return e, nil                                     (G = G1 || G2 || …)
+//	switch { case G1: fail ; case G2: fail ; default: return e, nil }                       (G = G1 || G2 || …)
+//
+// (shapes with an init statement in the `if` are left to the older code below).
+func (x *castX) guardedShape(body []ast.Stmt) (g, sent, e string, ok bool) {
+	plainIf := func(s ast.Stmt) *ast.IfStmt {
+		ifs, ok := s.(*ast.IfStmt)
+		if !ok || ifs.Init != nil || len(ifs.Body.List) != 1 {
+			return nil
+		}
+		return ifs
+	}
+	elseStmt := func(ifs *ast.IfStmt) ast.Stmt {
+		if b, ok := ifs.Else.(*ast.BlockStmt); ok && len(b.List) == 1 {
+			return b.List[0]
+		}
+		return nil
+	}
+	okE := func(s ast.Stmt) (string, bool) {
+		if s == nil {
+			return "", false
+		}
+		e, ok := x.okStmt(s)
+		return e, ok && e != "NIL"
+	}
+	failS := func(s ast.Stmt) (string, bool) {
+		if s == nil {
+			return "", false
+		}
+		return x.failStmt(s)
+	}
+	// tagless switch
+	if len(body) == 1 {
+		if sw, isSw := body[0].(*ast.SwitchStmt); isSw && sw.Init == nil && sw.Tag == nil {
+			var gs []string
+			for _, c := range sw.Body.List {
+				cc := c.(*ast.CaseClause)
+				if len(cc.Body) != 1 {
+					return
+				}
+				if cc.List == nil {
+					if e, ok = okE(cc.Body[0]); !ok {
+						return
+					}
+					continue
+				}
+				s1, okf := failS(cc.Body[0])
+				if !okf || (sent != "" && sent != s1) {
+					ok = false
+					return
+				}
+				sent = s1
+				for _, cond := range cc.List {
+					gi, okg := x.guard(cond)
+					if !okg {
+						ok = false
+						return
+					}
+					gs = append(gs, gi)
+				}
+			}
+			if e == "" || len(gs) == 0 {
+				ok = false
+				return
+			}
+			g = gs[0]
+			for _, gi := range gs[1:] {
+				g = fmt.Sprintf("(.or %s %s)", g, gi)
+			}
+			return g, sent, e, true
+		}
+		// single if / else
+		if ifs := plainIf(body[0]); ifs != nil && ifs.Else != nil {
+			gi, okg := x.guard(ifs.Cond)
+			if !okg {
+				return
+			}
+			if s1, okf := failS(ifs.Body.List[0]); okf {
+				if e1, oke := okE(elseStmt(ifs)); oke {
+					return gi, s1, e1, true
+				}
+			}
+			if e1, oke := okE(ifs.Body.List[0]); oke {
+				if s1, okf := failS(elseStmt(ifs)); okf {
+					return "(.not " + gi + ")", s1, e1, true
+				}
+			}
+		}
+		return
+	}
+	if len(body) < 2 {
+		return
+	}
+	last := body[len(body)-1]
+	// if G' { return e, nil } ; fail
+	if len(body) == 2 {
+		if ifs := plainIf(body[0]); ifs != nil && ifs.Else == nil {
+			if e1, oke := okE(ifs.Body.List[0]); oke {
+				if s1, okf := failS(last); okf {
+					if gi, okg := x.guard(ifs.Cond); okg {
+						return "(.not " + gi + ")", s1, e1, true
+					}
+				}
+			}
+		}
+	}
+	// if G1 { fail } ; … ; return e, nil   (the one-guard form stays with the older code, which also knows ifBool)
+	if len(body) >= 3 {
+		e1, oke := okE(last)
+		if !oke {
+			return
+		}
+		var gs []string
+		for _, st := range body[:len(body)-1] {
+			ifs := plainIf(st)
+			if ifs == nil || ifs.Else != nil {
+				return
+			}
+			s1, okf := failS(ifs.Body.List[0])
+			gi, okg := x.guard(ifs.Cond)
+			if !okf || !okg || (sent != "" && sent != s1) {
+				return "", "", "", false
+			}
+			sent = s1
+			gs = append(gs, gi)
+		}
+		g = gs[0]
+		for _, gi := range gs[1:] {
+			g = fmt.Sprintf("(.or %s %s)", g, gi)
+		}
+		return g, sent, e1, true
+	}
+	return
+}
+
 func (x *castX) branch(body []ast.Stmt) string {
 	unknown := func() string {
 		txt := x.p.stmtsText(body)
@@ -384,6 +531,9 @@ func (x *castX) branch(body []ast.Stmt) string {
 			return "(.special " + lstr(id) + ")"
 		}
 		return "(.unknown " + lstr(txt) + ")"
+	}
+	if g, sent, e, ok := x.guardedShape(body); ok {
+		return fmt.Sprintf("(.guarded %s %s %s)", g, lstr(sent), e)
 	}
 	switch len(body) {
 	case 1:
